@@ -217,3 +217,179 @@ def h11_parse_responses(data: bytes, eof: bool, request_methods: Optional[List[b
         if isinstance(r['body'], bytearray):
             r['body'] = bytes(r['body'])
     return out
+
+
+# ---------------------------------------------------------------------------
+# requests
+# ---------------------------------------------------------------------------
+
+METHODS = [b'GET', b'POST', b'PUT', b'DELETE', b'PATCH', b'OPTIONS', b'HEAD', b'PROPFIND', b'M-SEARCH']
+PATHS = [b'/', b'/a', b'/a/b/c', b'/index.html', b'/x?y=1&z=2', b'/p%20q', b'/a;b=c', b'/~u/', b'/*',
+         b'/very/long/' + b'p' * 40, b'/?', b'/a//b']
+REQ_HDRS = [b'Accept', b'User-Agent', b'X-Trace-Id', b'Cookie', b'X-b', b'Cache-Control',
+            b'Accept-Language', b'X-UPPER', b'Referer', b'If-None-Match', b'x-z9', b'Authorization',
+            b'X-Forwarded-For', b'Pragma', b'Range']
+
+
+def gen_headers(tape: Any, n: int, exclude: List[bytes]) -> List[Tuple[bytes, bytes]]:
+    out: List[Tuple[bytes, bytes]] = []
+    seen = {e.lower() for e in exclude}
+    for _ in range(n):
+        nm = REQ_HDRS[tape.draw(len(REQ_HDRS), 'hname')]
+        if nm.lower() in seen:
+            continue
+        seen.add(nm.lower())
+        out.append((casing(tape, nm), VALUES[tape.draw(len(VALUES) - 1, 'hval')] or b'v'))
+    return out
+
+
+def render_head(tape: Any, line: bytes, hdrs: List[Tuple[bytes, bytes]]) -> Tuple[bytes, List[int]]:
+    out = bytearray(line + b'\r\n')
+    marks = [len(out) - 1, len(out)]
+    for k_, v_ in hdrs:
+        pre = [b' ', b'', b'  ', b'\t'][tape.weighted([6, 2, 1, 1], 'ows1')]
+        post = [b'', b' ', b'  '][tape.weighted([6, 2, 1], 'ows2')]
+        out += k_ + b':' + pre + v_ + post + b'\r\n'
+        marks += [len(out) - 1, len(out)]
+    out += b'\r\n'
+    marks += [len(out) - 1, len(out)]
+    return bytes(out), marks
+
+
+def gen_request(tape: Any, g: Gen, *, form: str = 'absolute', host: bytes = b'up.example',
+                port: Optional[int] = None, max_body: int = 300, tag: bytes = b'',
+                allow_chunked: bool = True, methods: Optional[List[bytes]] = None,
+                extra: Optional[List[Tuple[bytes, bytes]]] = None, path: Optional[bytes] = None,
+                keepalive: bool = True, allow_http10: bool = True) -> Tuple[bytes, Dict[str, Any]]:
+    ms = methods or METHODS
+    method = ms[tape.draw(len(ms), 'method')]
+    if form == 'connect':
+        method = b'CONNECT'
+    p = path if path is not None else PATHS[tape.draw(len(PATHS), 'path')]
+    if tag:
+        p = p + (b'&' if b'?' in p else b'?') + b'tag=' + tag
+    authority = host + (b':%d' % port if port is not None else b'')
+    if form == 'absolute':
+        target = b'http://' + authority + p
+    elif form == 'connect':
+        target = host + b':%d' % (port or 443)
+    else:
+        target = p
+    version = b'HTTP/1.1'
+    if allow_http10 and g.feature('http10', 0.1):
+        version = b'HTTP/1.0'
+    hdrs: List[Tuple[bytes, bytes]] = []
+    hdrs.append((casing(tape, b'Host'), authority))
+    hdrs += gen_headers(tape, tape.draw(6, 'nhdr'), [b'host'] + [e[0] for e in (extra or [])])
+    for e in (extra or []):
+        hdrs.insert(tape.draw(len(hdrs) + 1, 'extra-pos'), e)
+    body = b''
+    framing = 'none'
+    has_body = method in (b'POST', b'PUT', b'PATCH', b'PROPFIND') and form != 'connect'
+    raw_body = b''
+    bmarks: List[int] = []
+    if has_body:
+        n = size(tape, 200, max_body, 'reqbody')
+        body = body_bytes(tape, n, 'reqbody')
+        if allow_chunked and version == b'HTTP/1.1' and g.feature('chunked_request', 0.4):
+            framing = 'chunked'
+            hdrs.append((casing(tape, b'Transfer-Encoding'), b'chunked'))
+            raw_body, bmarks = chunk_encode(tape, g, body, allow_ext=g.feature('req_chunk_ext', 0.2),
+                                            allow_trailers=False)
+            if not body:
+                g.note('empty_chunked_body')
+        else:
+            framing = 'length'
+            hdrs.append((casing(tape, b'Content-Length'), str(len(body)).encode()))
+            raw_body = body
+    if len(hdrs) > 2 and tape.coin(0.5, 'hdr-rot'):
+        k = 1 + tape.draw(len(hdrs) - 1, 'rot')
+        hdrs = hdrs[:1] + hdrs[k:] + hdrs[1:k]
+    head, marks = render_head(tape, method + b' ' + target + b' ' + version, hdrs)
+    raw = head + raw_body
+    marks += [len(head) + m for m in bmarks]
+    meta = {'method': method, 'target': target, 'path': p, 'version': version, 'headers': hdrs,
+            'body': body, 'framing': framing, 'marks': marks, 'head_len': len(head),
+            'host': host, 'port': port, 'form': form}
+    return raw, meta
+
+
+def gen_cuts(tape: Any, total: int, marks: List[int], label: str = 'cuts') -> List[int]:
+    """Cut positions in (0, total): none / uniform / boundary-biased / every byte."""
+    if total <= 1:
+        return []
+    mode = tape.weighted([3, 3, 4, 1], label + '-mode')
+    if mode == 0:
+        return []
+    if mode == 3:
+        return list(range(1, total))
+    n = 1 + tape.small(6, label + '-n')
+    cuts = set()
+    cand = sorted({m + d for m in marks for d in (-1, 0, 1) if 0 < m + d < total})
+    for _ in range(n):
+        if mode == 2 and cand and tape.coin(0.8, label + '-b'):
+            cuts.add(cand[tape.draw(len(cand), label + '-at')])
+        else:
+            cuts.add(1 + tape.draw(total - 1, label + '-at'))
+    return sorted(cuts)
+
+
+def pieces(data: bytes, cuts: List[int]) -> List[bytes]:
+    out = []
+    prev = 0
+    for c in cuts:
+        out.append(data[prev:c])
+        prev = c
+    out.append(data[prev:])
+    return [p for p in out if p]
+
+
+def h11_parse_requests(data: bytes, eof: bool = False) -> Dict[str, Any]:
+    """Parse an origin-side byte stream as a sequence of requests (h11 server role)."""
+    out: Dict[str, Any] = {'requests': [], 'error': None, 'trailing': b'', 'incomplete': False}
+    conn = h11.Connection(our_role=h11.SERVER, max_incomplete_event_size=1 << 26)
+    cur: Optional[Dict[str, Any]] = None
+    try:
+        conn.receive_data(data)
+        if eof:
+            conn.receive_data(b'')
+        while True:
+            ev = conn.next_event()
+            if ev is h11.NEED_DATA:
+                if cur is not None:
+                    out['incomplete'] = True
+                break
+            if ev is h11.PAUSED:
+                if conn.their_state is h11.DONE:
+                    # answer so that the next cycle can start
+                    if conn.our_state is h11.SEND_RESPONSE:
+                        conn.send(h11.Response(status_code=200, headers=[(b'content-length', b'0')]))
+                        conn.send(h11.EndOfMessage())
+                    if conn.our_state is h11.DONE and conn.their_state is h11.DONE:
+                        conn.start_next_cycle()
+                        continue
+                out['trailing'], _ = conn.trailing_data
+                break
+            if isinstance(ev, h11.Request):
+                cur = {'method': bytes(ev.method), 'target': bytes(ev.target),
+                       'version': b'HTTP/' + bytes(ev.http_version),
+                       'headers': [(bytes(k), bytes(v)) for k, v in ev.headers.raw_items()],
+                       'body': bytearray(), 'complete': False}
+                out['requests'].append(cur)
+                continue
+            if isinstance(ev, h11.Data):
+                assert cur is not None
+                cur['body'] += ev.data
+                continue
+            if isinstance(ev, h11.EndOfMessage):
+                assert cur is not None
+                cur['complete'] = True
+                cur = None
+                continue
+            if isinstance(ev, h11.ConnectionClosed):
+                break
+    except h11.ProtocolError as e:
+        out['error'] = '%s: %s' % (type(e).__name__, e)
+    for r in out['requests']:
+        r['body'] = bytes(r['body'])
+    return out
